@@ -266,6 +266,22 @@ def check_rename(ctx, names, target, newname):
             ok.append((t.name, f"range_{i}"))
         if not ok:
             return
+        # usage attributes (one value, a list of values as ODF allows, "none", or absent) travel with the range
+        usages = ["print-range", "print-range filter", None, "filter repeat-row", "none"]
+        for i, nr in enumerate(body.get_named_ranges()):
+            u = usages[(i + len(newname)) % len(usages)]
+            if u is not None:
+                nr.set_attribute("table:range-usable-as", u)
+        if len(newname) % 2:
+            # as a document read from a file
+            import io
+
+            buf = io.BytesIO()
+            doc.save(buf)
+            buf.seek(0)
+            doc = Document(buf)
+            body = doc.body
+        usage_before = {nr.name: nr.get_attribute_string("table:range-usable-as") for nr in body.get_named_ranges()}
         tgt_name, tgt_range = ok[target % len(ok)]
         table = body.get_table(name=tgt_name) if '"' not in tgt_name else [t for t in body.get_tables() if t.name == tgt_name][0]
         try:
@@ -283,6 +299,10 @@ def check_rename(ctx, names, target, newname):
             got[el.get(odfread.q("table:name"))] = el.get(odfread.q("table:cell-range-address"))
         for nr in body.get_named_ranges():
             exp_table = new if nr.name == tgt_range else dict((r, o) for o, r in ok)[nr.name]
+            ub = usage_before.get(nr.name)
+            ua = nr.get_attribute_string("table:range-usable-as")
+            ctx.check(ua == ub, ("C19", "rename", "named-range-usage"),
+                      f"range {nr.name}: table:range-usable-as was {ub!r}; after renaming table {tgt_name!r} it is {ua!r}", case)
             ctx.check(nr.table_name == exp_table, ("C19", "rename", "named-range-table"),
                       f"after renaming {tgt_name!r} -> {new!r}: range {nr.name} points to {nr.table_name!r} "
                       f"(address {got.get(nr.name)!r}), expected {exp_table!r}", case)
